@@ -462,6 +462,7 @@ def solve(objective, x0, p, lowerBounds, upperBounds, settings, callback=None,
     xBar0 = objective.scaling * x0
     lBar = objective.scaling * lowerBounds
     uBar = objective.scaling * upperBounds
+    bounds = np.column_stack((lBar, uBar))
     
     if useWarmStart:
         if updatePrecond:
@@ -469,7 +470,8 @@ def solve(objective, x0, p, lowerBounds, upperBounds, settings, callback=None,
         
         dxBar = WarmStart.warm_start_increment(objective,
                                                xBar0, p)
-        xBar0 += dxBar
+        # the warm start increment ignores the bounds, keep the start point feasible
+        xBar0 = project(xBar0 + dxBar, bounds)
         objective.p = p
     else:
         objective.p = p
@@ -477,8 +479,6 @@ def solve(objective, x0, p, lowerBounds, upperBounds, settings, callback=None,
     if updatePrecond:
         objective.update_precond(xBar0)
 
-    bounds = np.column_stack((lBar, uBar))
-        
     xBar, solverSuccess = bound_constrained_trust_region_minimize(objective, xBar0, bounds, settings,
                                                    callback=callback)
     
